@@ -9,8 +9,10 @@ import subprocess
 import tempfile
 import time
 
-Z3_TIMEOUT_MS = int(os.environ.get('PYVC_Z3_TIMEOUT_MS', '20000'))
-CVC5_TIMEOUT_MS = int(os.environ.get('PYVC_CVC5_TIMEOUT_MS', '30000'))
+# z3 either answers within milliseconds or not at all on these VCs: short first attempt, then cvc5, then z3 again (long)
+Z3_TIMEOUT_MS = int(os.environ.get('PYVC_Z3_TIMEOUT_MS', '4000'))
+Z3_LONG_TIMEOUT_MS = int(os.environ.get('PYVC_Z3_LONG_TIMEOUT_MS', '60000'))
+CVC5_TIMEOUT_MS = int(os.environ.get('PYVC_CVC5_TIMEOUT_MS', '60000'))
 CVC5 = '/usr/bin/cvc5'
 
 
@@ -71,6 +73,13 @@ def _solve_one(job):
             res['backend'] = 'cvc5'
         elif r != 'unknown' and r2 != 'unknown' and r != r2:
             verdict = 'disagree'
+        elif r == 'unknown' and r2 == 'unknown':
+            try:
+                r3, dt3, reason3 = _z3_check(smt2, Z3_LONG_TIMEOUT_MS)
+            except Exception as e:
+                r3, dt3, reason3 = 'unknown', 0.0, f'z3 error: {e}'
+            res['z3'] = (r3, round(dt + dt3, 3), reason3)
+            verdict = r3
     res['verdict'] = verdict
     res['time'] = (res['z3'][1] if res['z3'] else 0) + (res['cvc5'][1] if res['cvc5'] else 0)
     return res
